@@ -91,6 +91,17 @@ def cases(ctx, tier):
                     out.append(('mpn_set_str %s %s' % (hx(b), hb(bytes(reversed(dv)))), 'mpn_set_str'))
             v = rng.randrange(b ** (nd - 1), b ** nd)
             out.append(('mpz_get_str %s %s' % (hx(b), hx(v)), 'get_str-size'))
+    # round numbers of the base: m * b^e (long runs of trailing zero digits: every division by a precomputed power of the
+    # divide-and-conquer conversion leaves a zero remainder), and the same with a short non-zero tail
+    for b in ([3, 7, 10, 10, 12, 36, 62, -16, -36] if quick else [x for x in bases_out if abs(x) & (abs(x) - 1)]):
+        ab = abs(b)
+        for e in ([60, 220, 250, 500, 1000, 1500] if quick else [60, 220, 250, 500, 1000, 1500, 3000, 6000]):
+            for m in (1, 7, ab - 1, rng.getrandbits(64) | 1, nonzero_top(rng, 10)):
+                v = m * ab ** e
+                out.append(('mpz_get_str %s %s' % (hx(b), hx(v * rng.choice([1, 1, -1]))), 'get_str-round'))
+                if b > 0: out.append(('mpn_get_str %s %x %s' % (hx(b), (v.bit_length() + 63) // 64, hx(v)), 'mpn_get_str-round'))
+            v = (rng.getrandbits(100) | 1) * ab ** e + rng.randrange(1, ab ** 3)
+            out.append(('mpz_get_str %s %s' % (hx(b), hx(v)), 'get_str-round'))
     # round-trip style inputs in every base, with decorations
     for b in bases_in:
         bb = b if b else rng.choice([2, 8, 10, 16])
@@ -141,3 +152,39 @@ def cases(ctx, tier):
             out.append(('mpz_sizeinbase %s %s' % (hx(b), hx(b ** k)), 'sizeinbase-borderline'))
             out.append(('mpz_sizeinbase %s %s' % (hx(b), hx(b ** k - 1)), 'sizeinbase-borderline'))
     return out
+
+
+def search(ctx, failed):
+    """Directed search when an obligation of Properties_C06.v no longer checks.  The digit value table: every byte the regenerated
+    table classifies differently from the manual's digit sets is put into strings for mpz_set_str in a base of the half of the table
+    concerned; the library's answer is compared with the manual's rule (accepted as that digit / rejected)."""
+    names = [o['name'] for o in failed]
+    if not any('digit' in n for n in names):
+        return None
+    import gen_consts, vlib
+    tab = gen_consts.parse_dv()
+    def spec(c, cs):
+        if 48 <= c <= 57: return c - 48
+        if 65 <= c <= 90: return c - 55
+        if 97 <= c <= 122: return c - (61 if cs else 87)
+        return 255
+    bad = []
+    for c in range(1, 256):
+        for off, cs, bases in ((0, False, (36, 10, 16)), (224, True, (62, 37, 50))):
+            got = tab[off + c] if off + c < len(tab) else 255
+            if got != spec(c, cs): bad.append((c, cs, bases, got))
+    for c, cs, bases, got in bad:
+        for b in bases:
+            want = spec(c, cs)
+            s = b'1' + bytes([c]) + b'1'
+            ln = 'mpz_set_str %s %s' % (hx(b), hb(s))
+            o = vlib.run_robust(vlib.impl_cmd(ctx.impl), [ln], timeout=120, died='CRASH')[0]
+            t = o.split()
+            accepted = bool(t) and t[0] == '0'
+            should = want < b
+            value_ok = (not accepted) or (not should) or (len(t) > 1 and int(t[1], 16) == b * b + want * b + 1)
+            if accepted != should or not value_ok:
+                return {'cases': [ln], 'implementation_output': o[:300],
+                        'expected': ('accepted with digit value %d' % want) if should else 'rejected (return value -1): byte 0x%02x is not a digit of base %d' % (c, b),
+                        'note': 'mp_dv_tab.c gives byte 0x%02x the value %d in the %s half of the table; the manual gives it %s' % (c, got, 'second (bases 37..62)' if cs else 'first (bases up to 36)', want if want != 255 else 'no value')}
+    return None
